@@ -8,6 +8,8 @@ pub enum ParseError {
     FromSyntaxFailed(Vec<SyntaxElem>),
     ExpectedColonEquals(Vec<Token>),
     ExpectedRBracket(Vec<Token>),
+    ExpectedRecExpr(String),
+    MultiPatternState(String),
 }
 
 #[derive(Debug, Clone)]
@@ -105,7 +107,17 @@ impl<L: Language> Pattern<L> {
 impl<L: Language> RecExpr<L> {
     pub fn parse(s: &str) -> Result<Self, ParseError> {
         let pat = Pattern::parse(s)?;
+        if !is_rec_expr(&pat) {
+            return Err(ParseError::ExpectedRecExpr(s.to_string()));
+        }
         Ok(pattern_to_re(&pat))
+    }
+}
+
+fn is_rec_expr<L: Language>(pat: &Pattern<L>) -> bool {
+    match pat {
+        Pattern::ENode(_, children) => children.iter().all(is_rec_expr),
+        _ => false,
     }
 }
 
@@ -117,17 +129,21 @@ impl<L: Language> MultiPattern<L> {
             let x = x.trim();
             if x.is_empty() { continue }
 
+            let err = || ParseError::MultiPatternState(x.to_string());
             let v: Box<[&str]> = x.split("==").collect();
-            assert_eq!(v.len(), 2);
+            if v.len() != 2 {
+                return Err(err());
+            }
             let var: Pattern<L> = Pattern::parse(v[0])?;
             let rhs: Pattern<L> = Pattern::parse(v[1])?;
-            let Pattern::PVar(v) = var else { panic!("{var} isn't a PVar") };
-            let Pattern::ENode(n, children) = rhs else { panic!("{rhs} isn't an e-node") };
-            let children = children.into_iter().map(|x| {
-                let Pattern::PVar(xx) = x else { panic!("child {x} isn't a PVar") };
-                xx
-            }).collect();
-            out.push((v, n, children));
+            let Pattern::PVar(v) = var else { return Err(err()) };
+            let Pattern::ENode(n, children) = rhs else { return Err(err()) };
+            let mut pvars = Vec::new();
+            for x in children {
+                let Pattern::PVar(xx) = x else { return Err(err()) };
+                pvars.push(xx);
+            }
+            out.push((v, n, pvars));
         }
         Ok(MultiPattern { pats: out })
     }
@@ -140,7 +156,7 @@ fn parse_pattern<L: Language>(tok: &[Token]) -> Result<(Pattern<L>, &[Token]), P
         let (l, tok2) = parse_pattern(tok)?;
         tok = tok2;
 
-        let Token::ColonEquals = &tok[0] else {
+        let Some(Token::ColonEquals) = tok.get(0) else {
             return Err(ParseError::ExpectedColonEquals(to_vec(tok)));
         };
         tok = &tok[1..];
@@ -148,7 +164,7 @@ fn parse_pattern<L: Language>(tok: &[Token]) -> Result<(Pattern<L>, &[Token]), P
         let (r, tok2) = parse_pattern(tok)?;
         tok = tok2;
 
-        let Token::RBracket = &tok[0] else {
+        let Some(Token::RBracket) = tok.get(0) else {
             return Err(ParseError::ExpectedRBracket(to_vec(tok)));
         };
         tok = &tok[1..];
@@ -161,22 +177,30 @@ fn parse_pattern<L: Language>(tok: &[Token]) -> Result<(Pattern<L>, &[Token]), P
 fn parse_pattern_nosubst<L: Language>(
     mut tok: &[Token],
 ) -> Result<(Pattern<L>, &[Token]), ParseError> {
-    if let Token::PVar(p) = &tok[0] {
+    // the input may end anywhere: never index `tok` unchecked.
+    let Some(first) = tok.get(0) else {
+        return Err(ParseError::ParseState(to_vec(tok)));
+    };
+
+    if let Token::PVar(p) = first {
         let pat = Pattern::PVar(p.to_string());
         return Ok((pat, &tok[1..]));
     }
 
-    if let Token::LParen = tok[0] {
+    if let Token::LParen = first {
         tok = &tok[1..];
 
-        let Token::Ident(op) = &tok[0] else {
+        let Some(Token::Ident(op)) = tok.get(0) else {
             return Err(ParseError::ParseState(to_vec(tok)));
         };
         tok = &tok[1..];
 
         let mut syntax_elems = vec![NestedSyntaxElem::String(op.to_string())];
         loop {
-            if let Token::RParen = tok[0] {
+            let Some(t) = tok.get(0) else {
+                return Err(ParseError::ParseState(to_vec(tok)));
+            };
+            if let Token::RParen = t {
                 break;
             };
 
@@ -212,7 +236,7 @@ fn parse_pattern_nosubst<L: Language>(
         let re = Pattern::ENode(node, syntax_elems);
         Ok((re, tok))
     } else {
-        let Token::Ident(op) = &tok[0] else {
+        let Token::Ident(op) = first else {
             return Err(ParseError::ParseState(to_vec(tok)));
         };
         tok = &tok[1..];
@@ -235,7 +259,7 @@ enum NestedSyntaxElem<L: Language> {
 fn parse_nested_syntax_elem<L: Language>(
     tok: &[Token],
 ) -> Result<(NestedSyntaxElem<L>, &[Token]), ParseError> {
-    if let Token::Slot(slot) = &tok[0] {
+    if let Some(Token::Slot(slot)) = tok.get(0) {
         return Ok((NestedSyntaxElem::Slot(*slot), &tok[1..]));
     }
 
